@@ -22,6 +22,10 @@ type Subscription struct {
 
 	// etype is the type of the events, the type of the subscription field.
 	etype Type
+
+	// vars are the variables of the operation that made the subscription,
+	// the selection that is applied to each event may make use of them.
+	vars map[string]interface{}
 }
 
 // NewSubscription creates a new subscription. It should be called in a
@@ -32,6 +36,14 @@ func NewSubscription(sub Subscriber, field *Field, args map[string]interface{}) 
 		field: field,
 		args:  args,
 	}
+}
+
+// eventVars are the variables the selection is applied to an event with.
+func (sub *Subscription) eventVars() map[string]interface{} {
+	if sub.vars == nil {
+		return map[string]interface{}{}
+	}
+	return sub.vars
 }
 
 func (sub *Subscription) prep(root *Root) {
